@@ -50,6 +50,14 @@ pub(crate) fn field_set(p: &mut Parser) {
     if has_braces {
         p.expect(T!['}'], S!['}']);
     }
+    // A field set is the whole input: anything left over is an error
+    p.peek_while(|p, kind| match kind {
+        TokenKind::Eof => ControlFlow::Break(()),
+        _ => {
+            p.err_and_pop("expected end of input after selection set");
+            ControlFlow::Continue(())
+        }
+    });
 }
 
 /// See: https://spec.graphql.org/October2021/#Selection
